@@ -68,6 +68,32 @@ class Sides:
                 for k in self.labels.back[lab]]
 
 
+class FileSides(Sides):
+    '''Two written files of the same deck compared with each other: file A
+    plays the role of the expectation.'''
+
+    def __init__(self, t4_a, t4_b, deck_cells):
+        self.labels = Labels()
+        self.cells = set(deck_cells)
+        self.t4 = t4_b
+        self.evalr = Evaluator(t4_b)
+        self.evalr_a = Evaluator(t4_a)
+        self.vkeys = {vid: volume_key(vol, self.cells)
+                      for vid, vol in t4_b.volus.items() if not vol.fictive}
+        self.vkeys_a = {vid: volume_key(vol, self.cells)
+                        for vid, vol in t4_a.volus.items() if not vol.fictive}
+        self.n_eval = 0
+
+    def expected(self, pts):
+        batch = self.evalr_a.batch(pts)
+        keys = [[] for _ in range(len(pts))]
+        for vid, key in self.vkeys_a.items():
+            mask = batch.inside(vid)
+            for i in np.nonzero(mask)[0]:
+                keys[i].append(key)
+        return np.array([self.labels.intern(k) for k in keys], dtype=np.int64)
+
+
 def _bisect(labfn, lo, hi, llo, iters=30):
     '''Shrink segments [lo, hi] whose end labels differ onto a boundary.'''
     lo = lo.copy()
